@@ -44,7 +44,16 @@ class Alphabet:
                 return label
         fx = getattr(self, "_fx", None)
         if fx is not None and t.get("callee_local") and t.get("callee"):
-            return self.wrapper_label(fx, t.get("resolved") or t["callee"])
+            lab = self.wrapper_label(fx, t.get("resolved") or t["callee"])
+            if lab is None and t.get("trait") and not t.get("resolved"):
+                # a method of a crate-local trait called on a type parameter (`tx.push(event)` with `S: RawTx`): when every
+                # implementation is a thin wrapper of the same labelled call, the call is that call whatever S is
+                meth = t["callee"].split("::")[-1]
+                impls = [h for h in fx.d["fns"] if h.get("impl_trait_def") == t["trait"] and h["def"].endswith("::" + meth) and h["kind"] == "assoc_fn"]
+                labs = {self.wrapper_label(fx, h["def"]) for h in impls}
+                if impls and len(labs) == 1 and None not in labs:
+                    lab = next(iter(labs))
+            return lab
         return None
 
     def wrapper_label(self, fx, name, _depth=0):
